@@ -246,15 +246,28 @@ func (o *opClient) node() *opNode {
 	defer o.w.mu.Unlock()
 	return o.w.ops[o.id]
 }
+// inProcessOf runs f as the RPC handler would run: inside the operator's process
+// (group), so that whatever it creates - goroutines, process-local package state
+// such as the DKV's task queues - belongs to the operator, not to the caller.
+func (o *opClient) inProcessOf(n *opNode, f func() error) error {
+	prev := simrt.Group()
+	simrt.SetGroup(n.group)
+	defer simrt.SetGroup(prev)
+	return f()
+}
+
 func (o *opClient) Deploy(ctx context.Context, req *workerpb.DeployOperatorRequest) error {
 	simrt.Yield("rpc.DeployOperator")
 	n := o.node()
 	o.w.m.resetView(o.id)
-	return n.op.HandleDeploy(ctx, req, recSink{})
+	return o.inProcessOf(n, func() error { return n.op.HandleDeploy(ctx, req, recSink{}) })
 }
 func (o *opClient) UpdateRetainedCheckpoints(ctx context.Context, ids []uint64) error {
 	simrt.Yield("rpc.UpdateRetainedCheckpoints")
-	return o.node().op.HandleRemoveCheckpoints(ctx, &workerpb.UpdateRetainedCheckpointsRequest{CheckpointIds: ids})
+	n := o.node()
+	return o.inProcessOf(n, func() error {
+		return n.op.HandleRemoveCheckpoints(ctx, &workerpb.UpdateRetainedCheckpointsRequest{CheckpointIds: ids})
+	})
 }
 func (o *opClient) NeedsTable(ctx context.Context, uri string) (bool, error) {
 	n := o.node()
@@ -282,6 +295,9 @@ func (s *srStub) Deploy(ctx context.Context, req *workerpb.DeploySourceRunnerReq
 
 // handleEvent is what the connect adapter + retrying client do for one event.
 func (w *opWorld) handleEvent(n *opNode, sender string, ev *workerpb.Event) error {
+	prev := simrt.Group()
+	simrt.SetGroup(n.group) // the connect handler runs in the operator's process
+	defer simrt.SetGroup(prev)
 	for {
 		err := n.op.HandleEvent(context.Background(), sender, ev)
 		if err != nil && connect.CodeOf(err) == connect.CodeUnavailable {
